@@ -296,7 +296,10 @@ func (r restServerProtocol) addProtocolRequestHeaders(meta requestMeta, headers 
 func (r restServerProtocol) extractProtocolResponseHeaders(statusCode int, headers http.Header) (responseMeta, responseEndUnmarshaller, error) {
 	contentType := headers.Get("Content-Type")
 	if statusCode/100 != 2 {
-		// The error body may be compressed, like any other response body.
+		// The backend's entity headers describe its error body, not the
+		// error the client is sent (which may be compressed, like any
+		// other response body).
+		headers.Del("Content-Type")
 		compression := headers.Get("Content-Encoding")
 		headers.Del("Content-Encoding")
 		return responseMeta{
